@@ -484,6 +484,9 @@ def _await_descriptor_upload(tor_protocol, onion, progress, await_all_uploads):
                         ', '.join(failed_uploads),
                     )
                     uploaded.errback(RuntimeError(msg))
+                elif await_all and confirmed_uploads and not uploaded.called:
+                    if (failed_uploads | confirmed_uploads) == attempted_uploads:
+                        uploaded.callback(onion)
 
     # the first 'yield' should be the add_event_listener so that a
     # caller can do "d = _await_descriptor_upload()", then add the
